@@ -749,7 +749,7 @@ func (ex *Exec) jump(st *State, to *ssa.BasicBlock) {
 		return
 	}
 	if !back && ex.Specs != nil {
-		if ct := ex.Specs.Contracts[fr.Fn.String()]; ct != nil && ct.Peel[lp.Ordinal] {
+		if ct := ex.Specs.Contracts[fr.Fn.String()]; ct != nil && ct.Peel[baselineLoopOrdinal(fr.Fn, lp.Ordinal)] {
 			// peeled first iteration: executed like straight-line code; the cut happens when the back edge arrives
 			if fr.Peeled == nil {
 				fr.Peeled = map[*ssa.BasicBlock]bool{}
